@@ -394,6 +394,31 @@ def run(prop, tier, seed, repo, jobs):
                         inconclusive.append('%s: %s; not reproduced natively (replay %s)' % (ob['name'], ob.get('detail'), rpath))
         except Exception as e:
             inconclusive.append('shared waits: %s' % e)
+        try:
+            res = proto.shared_waits_in_build_future((tier, repo))
+            if res['error']:
+                inconclusive.append('build future: %s' % res['error'])
+            else:
+                fns |= set(res['functions'])
+                for ob in res['obligations']:
+                    nq += 1
+                    if ob['verdict'] == 'unsat':
+                        nunsat += 1
+                        samples.append({'case': 'build future (builder::build_target in incremental::run)', 'obligation': ob['name'], 'verdict': 'unsat', 'paths': ob['checked_paths'], 'shared_objects_seen': ob['shared_objects_seen']})
+                        continue
+                    nat = proto.native_two_independent_builds(repo)
+                    confirmed = 't0' in nat['spawned'] and 't1' not in nat['spawned']
+                    replay_n += 1
+                    rpath = os.path.join(common.REPLAYS, 'C17-build-slot-%d.json' % replay_n)
+                    os.makedirs(common.REPLAYS, exist_ok=True)
+                    json.dump({'kind': 'incr', 'obligation': ob, 'native': nat, 'confirmed': confirmed}, open(rpath, 'w'), indent=1, default=str)
+                    if confirmed:
+                        violations.append(rpath)
+                        samples.append({'case': 'build future', 'obligation': ob['name'], 'verdict': 'sat (reproduced natively with one CPU visible: the unrelated build is never started)', 'detail': ob.get('detail')})
+                    else:
+                        inconclusive.append('%s: %s; not reproduced natively (replay %s)' % (ob['name'], ob.get('detail'), rpath))
+        except Exception as e:
+            inconclusive.append('build future: %s' % e)
     # exit path of main(): terminate() after engine::run on every path (source-derived, see maintail.py)
     if prop in ('C07', 'C10', 'C11'):
         try:
